@@ -367,6 +367,21 @@ func (e *enc) addWriteBase(fr *frame, v ssa.Value, keys map[string]bool, allHeap
 	case *ssa.MakeMap:
 		keys[fmt.Sprintf("M:%s:%d:%s", clean(fr.fn.Name()), fr.depth, x.Name())] = true
 		return
+	case *ssa.Lookup:
+		// a map held as a value of another map: the write goes back into the outer map
+		if _, ok := x.Type().Underlying().(*types.Map); ok {
+			e.addWriteBase(fr, x.X, keys, allHeap)
+			return
+		}
+		if _, ok := x.Type().(*types.Tuple); ok {
+			e.addWriteBase(fr, x.X, keys, allHeap)
+			return
+		}
+	case *ssa.Extract:
+		if lk, ok := x.Tuple.(*ssa.Lookup); ok {
+			e.addWriteBase(fr, lk, keys, allHeap)
+			return
+		}
 	}
 	if l, ok := fr.prov[v]; ok {
 		keys[l.base] = true
@@ -447,6 +462,9 @@ func (e *enc) callWrites(fr *frame, c *ssa.CallCommon, keys map[string]bool, all
 	}
 	// pointer arguments with known locations may be written by the callee
 	for _, a := range c.Args {
+		if mi, ok := a.(*ssa.MakeInterface); ok {
+			a = mi.X // a pointer boxed into an interface (json.Unmarshal(data, &v))
+		}
 		if _, ok := a.Type().Underlying().(*types.Pointer); ok && !isNodeType(a.Type()) {
 			e.addWriteBase(fr, a, keys, allHeap)
 		}
@@ -1329,6 +1347,9 @@ func (e *enc) instr(b *ssa.BasicBlock, in ssa.Instruction) {
 			if ls, ok := fr.tupleLocs[x.Tuple]; ok && ls[x.Index] != nil {
 				fr.loc[x] = ls[x.Index]
 			}
+			if p, ok := fr.tupleProvs[x.Tuple]; ok && x.Index == 0 {
+				fr.prov[x] = p
+			}
 		} else {
 			fr.val[x] = e.fresh("ext", e.so.of(x.Type()))
 			e.assumeWF(fr.val[x], x.Type(), 1)
@@ -1637,6 +1658,23 @@ func (e *enc) lookup(x *ssa.Lookup) {
 			fr.tuples[x] = []Term{e.define("lk_"+x.Name(), e.so.of(mt.Elem()), v), e.define("lkok_"+x.Name(), "Bool", fmt.Sprintf("(select (dom_%s %s) %s)", ms, m, k))}
 		} else {
 			fr.val[x] = e.define("lk_"+x.Name(), e.so.of(mt.Elem()), v)
+		}
+		// a map held as a value of this map: updates through the looked-up value are written back into the entry
+		if _, inner := mt.Elem().Underlying().(*types.Map); inner {
+			if p, ok := fr.prov[x.X]; ok {
+				kc := e.define("lkkey", e.so.of(mt.Key()), k)
+				np := &Loc{base: p.base, ref: p.ref, sort: e.so.of(mt.Elem()), ty: mt.Elem()}
+				np.path = append(append([]step{}, p.path...), step{kind: "mapval", idx: kc, sort: ms})
+				if x.CommaOk {
+					if fr.tupleProvs == nil {
+						fr.tupleProvs = map[ssa.Value]*Loc{}
+					}
+					fr.tupleProvs[x] = np
+				} else {
+					fr.prov[x] = np
+				}
+				e.assumps["a map stored as a value of another map is held by that entry only (no sharing between entries)"] = true
+			}
 		}
 		return
 	}
